@@ -7,6 +7,7 @@
    [TxInv] (proofs/ServerDefs.v) holds in every reachable state ([C07_txinv]). *)
 From Dht Require Import Base Int160 Msg Server ServerDefs ServerInv ServerInv2 ServerExamples.
 From DhtGen Require Import Params.
+From Dht Require Query RunLookups RunQueryProofs.
 
 (* ---- transaction ids are varints of the issuer's counter: distinct counters, distinct ids ---- *)
 Theorem C07_uvarint_roundtrip n : (n < 2 ^ 64)%N -> uvarint_decode (uvarint n) = Some n.
@@ -148,6 +149,39 @@ Proof.
   split; [exact s0_reachable|]. vm_compute. repeat split.
 Qed.
 
+(* ---- the one-query model of the query engine (Query.v; scripts of RunLookups.v): copies of the reply and
+        datagrams that are not the reply.  The copy the server takes removes the transaction; every further
+        copy, back to back or after any schedule of further events, is no event at all; a script with stray
+        datagrams (other source address / port / zone, other transaction id: action QAStray) has exactly the
+        outcomes of the script with pauses in their place ---- *)
+Theorem C07_query_reply_copy_no_effect c s :
+  Query.step_en c (Query.step_en c s Query.EReplyArrives) Query.EReplyArrives
+  = Query.step_en c s Query.EReplyArrives.
+Proof. exact (RunQueryProofs.reply_copy_no_effect c s). Qed.
+
+Theorem C07_query_reply_copies_no_effect c s :
+  Query.enabled c s Query.EReplyArrives = true -> Query.q_caller s <> Query.CStart ->
+  forall ls, Query.step_en c (Query.exec c (Query.step_en c s Query.EReplyArrives) ls) Query.EReplyArrives
+             = Query.exec c (Query.step_en c s Query.EReplyArrives) ls.
+Proof. exact (RunQueryProofs.reply_copies_no_effect c s). Qed.
+
+Theorem C07_query_strays_no_effect sc :
+  RunLookups.rq_outcomes (RunQueryProofs.scn_destray sc) = RunLookups.rq_outcomes sc.
+Proof. exact (RunQueryProofs.rq_outcomes_destray sc). Qed.
+
+Example C07_query_strays_nonvacuous :
+  RunLookups.rq_outcomes (RunLookups.rq_mk_scn 1 false false false false None false false 0
+     [(RunLookups.QPGate 1, RunLookups.QAStray); (RunLookups.QPGate 1, RunLookups.QAStray)]) = [(1, 1, 2, false, false)]%nat /\
+  RunLookups.rq_outcomes (RunLookups.rq_mk_scn 1 false false false false None false false 0
+     [(RunLookups.QPGate 1, RunLookups.QAStray); (RunLookups.QPGate 1, RunLookups.QAStray); (RunLookups.QPGate 1, RunLookups.QAReply)])
+    = [(1, 1, 0, false, false)]%nat /\
+  RunLookups.rq_outcomes (RunLookups.rq_mk_scn 1 false false false false None false false 0
+     (repeat (RunLookups.QPWrite 1, RunLookups.QAReply) 6))
+    = RunLookups.rq_outcomes (RunLookups.rq_mk_scn 1 false false false false None false false 0 [(RunLookups.QPWrite 1, RunLookups.QAReply)]).
+Proof.
+  exact (conj RunQueryProofs.strays_only_times_out (conj RunQueryProofs.strays_then_reply RunQueryProofs.six_copies_in_write)).
+Qed.
+
 Print Assumptions C07_uvarint_roundtrip.
 Print Assumptions C07_uvarint_decode_inj.
 Print Assumptions C07_txinv.
@@ -162,3 +196,7 @@ Print Assumptions C07_query_never_touches_pending.
 Print Assumptions C07_replay_inert.
 Print Assumptions C07_replay_inert_forever.
 Print Assumptions C07_nonvacuous.
+Print Assumptions C07_query_reply_copy_no_effect.
+Print Assumptions C07_query_reply_copies_no_effect.
+Print Assumptions C07_query_strays_no_effect.
+Print Assumptions C07_query_strays_nonvacuous.
